@@ -112,7 +112,7 @@ Definition c01_check (k : c01_case) : bool * bool :=
       let w := N.to_nat wN in
       let o := mk_oracle widths isizes fsp fer ers in
       let fp := map (fun '(i, r, c) => (i, N.to_nat r, N.to_nat c)) foreign in
-      let isgood := in_domain o h w s && overlap_free o h w s && grid_dims g h w in
+      let isgood := in_domain o h w s && no_image_overlap o h w s && grid_dims g h w in
       ( list_eqb cmd_eqb (fst (frame o (rdraw (rnew h w true) s))) impl && Bool.eqb good isgood,
         (* C01_forced on the implementation's commands: every cell as repainted from scratch, whatever
            the terminal showed; placements = the foreign ones and the drawn ones *)
